@@ -72,6 +72,20 @@ Definition heff2_apply (da db p1 p2 dr b1 bo : nat) (L Rt : E3 R) (W1 W2 : T4 R)
 Definition merge_cfg (p2 : nat) (s : list nat) (k : nat) : list nat :=
   firstn k s ++ match skipn k s with d1 :: d2 :: r => Nat.add (Nat.mul d1 p2) d2 :: r | r => r end.
 
+(* omega targeting: optimize_mps(mps, mpo, omega) builds Environ(mps, [mpo', mpo']) with mpo' = H - omega and contracts
+   two operator layers ("abcd, befg, cfhi, jgik -> aejdhk", "abcd, befg, cfhi, jgik, aej -> dhk" in hop_expr).  That is the
+   one-layer contraction with the operator tensor of (H - omega)^2, whose bond is the pair (first layer, second layer):
+   index bc = b * db + c.  L4/R4: two-layer environments (bra bond, layer 1, layer 2, ket bond). *)
+Definition sq_op (db bo p : nat) (W : T4 R) : T4 R :=
+  fun bc e h gi => sumn p (fun f => W (Nat.div bc db) e f (Nat.div gi bo) * W (Nat.modulo bc db) f h (Nat.modulo gi bo)).
+Definition merge_env (d : nat) (E4 : T4 R) : E3 R := fun a bc k => E4 a (Nat.div bc d) (Nat.modulo bc d) k.
+Definition heff_omega1 (da db p dr bo : nat) (L4 Rt4 : T4 R) (W : T4 R) (C : T3 R) : T3 R :=
+  heff1_apply da (Nat.mul db db) p dr (Nat.mul bo bo) (merge_env db L4) (merge_env bo Rt4) (sq_op db bo p W) C.
+Definition heff_omega2 (da db p1 p2 dr b1 bo : nat) (L4 Rt4 : T4 R) (W1 W2 : T4 R)
+           (C2 : nat -> nat -> nat -> nat -> R) : nat -> nat -> nat -> nat -> R :=
+  heff2_apply da (Nat.mul db db) p1 p2 dr (Nat.mul b1 b1) (Nat.mul bo bo) (merge_env db L4) (merge_env bo Rt4)
+              (sq_op db b1 p1 W1) (sq_op b1 bo p2 W2) C2.
+
 (* ---------------------------------------------------------------- the dense side *)
 Definition vec := list nat -> R.
 Definition ipV (ds : list nat) (x y : vec) : R := sumcfg ds (fun s => cj (x s) * y s).
@@ -87,5 +101,6 @@ End Heff.
 
 Arguments hsite {R}. Arguments hsand {R}. Arguments csite {R}. Arguments ipW3 {R}. Arguments heff1_apply {R}.
 Arguments heff1_mat {R}. Arguments matvec1 {R}. Arguments maskT {R}. Arguments heff1_masked {R}.
+Arguments sq_op {R}. Arguments merge_env {R}. Arguments heff_omega1 {R}. Arguments heff_omega2 {R}.
 Arguments merge_op {R}. Arguments merge_ket {R}. Arguments merge_c2 {R}. Arguments heff2_apply {R}.
 Arguments ipV {R}. Arguments Hdense {R}. Arguments kchain_of {R}. Arguments kdims_of {R}. Arguments Pvec {R}.
